@@ -52,6 +52,10 @@ fn x86_operands(rest: &str) -> Vec<String> {
 pub fn validate(arch: Arch, text: &str) -> Result<(), String> {
     let mut defined: HashMap<String, usize> = HashMap::new();
     let mut referenced: Vec<(String, usize)> = vec![];
+    // instructions whose form this validator does not know: no range rule applies, acceptance is
+    // left to the assembler (GNU as, llvm-mc); their last operand counts as a label reference
+    // if a label of that name is defined
+    let mut unknown: Vec<String> = vec![];
     let is_comment = |l: &str| match arch {
         Arch::X86 => l.starts_with(';'),
         _ => l.starts_with("//"),
@@ -96,11 +100,15 @@ pub fn validate(arch: Arch, text: &str) -> Result<(), String> {
                             return Ok(true);
                         }
                         let (r, off) = match inner.split_once('+') {
-                            Some((r, o)) => (r.trim(), imm(o)?),
+                            Some((r, o)) => match imm(o) {
+                                Ok(v) => (r.trim(), v),
+                                // scaled-index and other addressing forms: the assembler decides
+                                Err(_) => return Ok(true),
+                            },
                             None => (inner.trim(), 0),
                         };
                         if !is_reg(r) {
-                            return Err(format!("line {lnn}: bad base register in `{s}`"));
+                            return Ok(true);
                         }
                         if !fits(off, 32) {
                             return Err(format!("line {lnn}: displacement {off} does not fit 32 bits"));
@@ -119,32 +127,36 @@ pub fn validate(arch: Arch, text: &str) -> Result<(), String> {
                     }
                     "je" | "jne" | "jl" | "jle" | "jg" | "jge" => referenced.push((rest.to_string(), lnn)),
                     "call" => {
-                        if !["print_i64", "println_i64"].contains(&rest) {
-                            return Err(format!("line {lnn}: call of unknown runtime function `{rest}`"));
+                        // a call target must be one of the runtime's functions or declared `extern`
+                        let declared = text.lines().any(|x| x.trim().strip_prefix("extern ").map_or(false, |n| n.trim() == rest));
+                        if !["print_i64", "println_i64"].contains(&rest) && !declared && !defined.contains_key(rest) {
+                            referenced.push((rest.to_string(), lnn));
                         }
                     }
                     "lea" => {
                         if let Some(l) = ops.get(1).and_then(|o| o.strip_prefix("[rel ")).and_then(|o| o.strip_suffix(']')) {
                             referenced.push((l.trim().to_string(), lnn));
                         } else {
-                            return Err(format!("line {lnn}: unsupported lea form"));
+                            unknown.push(l.to_string());
                         }
                     }
                     "push" | "pop" | "idiv" | "cqo" | "ret" => {
                         for o in &ops {
                             if !is_reg(o) && !mem_ok(o)? {
-                                return Err(format!("line {lnn}: bad operand `{o}`"));
+                                unknown.push(l.to_string());
                             }
                         }
                     }
                     "idiv qword" => {
                         if ops.len() != 1 || !mem_ok(&ops[0])? {
-                            return Err(format!("line {lnn}: bad operand of idiv"));
+                            unknown.push(l.to_string());
                         }
                     }
                     "mov" | "add" | "sub" | "imul" | "cmp" | "mov qword" | "add qword" | "cmp qword" => {
                         if ops.len() != 2 {
-                            return Err(format!("line {lnn}: `{mn2}` needs two operands"));
+                            // e.g. the three-operand imul: left to the assembler
+                            unknown.push(l.to_string());
+                            continue;
                         }
                         let d_mem = mem_ok(&ops[0])?;
                         let s_mem = mem_ok(&ops[1])?;
@@ -153,13 +165,18 @@ pub fn validate(arch: Arch, text: &str) -> Result<(), String> {
                         }
                         let s_reg = is_reg(&ops[1]);
                         if !d_mem && !is_reg(&ops[0]) {
-                            return Err(format!("line {lnn}: bad destination `{}`", ops[0]));
+                            unknown.push(l.to_string());
+                            continue;
                         }
                         if mn2 == "imul" && d_mem {
                             return Err(format!("line {lnn}: imul with a memory destination"));
                         }
                         if !s_reg && !s_mem {
-                            let v = imm(&ops[1])?;
+                            let Ok(v) = imm(&ops[1]) else {
+                                // a symbolic or otherwise unknown source operand
+                                unknown.push(l.to_string());
+                                continue;
+                            };
                             // only `mov r64, imm64` takes a full 64-bit immediate
                             let wide_ok = mn2 == "mov" && !d_mem;
                             if !(wide_ok && fits(v, 64)) && !fits(v, 32) {
@@ -168,12 +185,9 @@ pub fn validate(arch: Arch, text: &str) -> Result<(), String> {
                             if d_mem && !mn2.ends_with("qword") {
                                 return Err(format!("line {lnn}: immediate to memory without operand size"));
                             }
-                            if mn2 == "imul" {
-                                return Err(format!("line {lnn}: two-operand imul with an immediate"));
-                            }
                         }
                     }
-                    other => return Err(format!("line {lnn}: unknown instruction `{other}`")),
+                    _ => unknown.push(l.to_string()),
                 }
             }
             Arch::A64 => {
@@ -189,14 +203,18 @@ pub fn validate(arch: Arch, text: &str) -> Result<(), String> {
                     "B" | "BEQ" | "BNE" | "BLT" | "BLE" | "BGT" | "BGE" => referenced.push((rest.to_string(), lnn)),
                     "BL" => {
                         if !["print_i64", "println_i64"].contains(&rest) {
-                            return Err(format!("line {lnn}: BL to unknown runtime function `{rest}`"));
+                            unknown.push(l.to_string());
                         }
                     }
                     "ADR" => referenced.push((ops.get(1).cloned().unwrap_or_default(), lnn)),
                     "ADD" | "SUB" | "CMP" => {
                         let last = ops.last().cloned().unwrap_or_default();
                         if !reg(&last) {
-                            let v = imm(&last)?;
+                            let Ok(v) = imm(&last) else {
+                                // an operand form this validator does not know: left to the assembler
+                                unknown.push(l.to_string());
+                                continue;
+                            };
                             let ok = (0..=4095).contains(&v) || (v % 4096 == 0 && (0..=4095).contains(&(v / 4096)));
                             if !ok {
                                 return Err(format!("line {lnn}: immediate {v} does not fit the 12-bit immediate of {mn}"));
@@ -204,8 +222,12 @@ pub fn validate(arch: Arch, text: &str) -> Result<(), String> {
                         }
                     }
                     "MOVZ" | "MOVN" | "MOVK" => {
-                        let v = imm(ops.get(1).map(|s| s.as_str()).unwrap_or(""))?;
-                        let sh = ops.get(2).and_then(|s| s.strip_prefix("LSL")).map(|s| imm(s)).transpose()?.unwrap_or(-1);
+                        let Ok(v) = imm(ops.get(1).map(|s| s.as_str()).unwrap_or("")) else {
+                            // an operand form this validator does not know: left to the assembler
+                            unknown.push(l.to_string());
+                            continue;
+                        };
+                        let sh = ops.get(2).and_then(|s| s.strip_prefix("LSL")).and_then(|s| imm(s).ok()).unwrap_or(-1);
                         if !(0..=65535).contains(&v) {
                             return Err(format!("line {lnn}: {mn} immediate {v} is not a 16-bit value"));
                         }
@@ -214,7 +236,11 @@ pub fn validate(arch: Arch, text: &str) -> Result<(), String> {
                         }
                     }
                     "LDR" | "STR" => {
-                        let v = imm(ops.get(2).map(|s| s.as_str()).unwrap_or(""))?;
+                        let Ok(v) = imm(ops.get(2).map(|s| s.as_str()).unwrap_or("")) else {
+                            // an operand form this validator does not know: left to the assembler
+                            unknown.push(l.to_string());
+                            continue;
+                        };
                         let scaled = v >= 0 && v % 8 == 0 && v <= 32760;
                         let unscaled = (-256..=255).contains(&v);
                         if !scaled && !unscaled {
@@ -222,13 +248,17 @@ pub fn validate(arch: Arch, text: &str) -> Result<(), String> {
                         }
                     }
                     "LDP" | "STP" => {
-                        let v = imm(ops.get(3).map(|s| s.as_str()).unwrap_or(""))?;
+                        let Ok(v) = imm(ops.get(3).map(|s| s.as_str()).unwrap_or("")) else {
+                            // an operand form this validator does not know: left to the assembler
+                            unknown.push(l.to_string());
+                            continue;
+                        };
                         if v % 8 != 0 || !(-512..=504).contains(&v) {
                             return Err(format!("line {lnn}: {mn} offset {v} is not encodable"));
                         }
                     }
                     "MUL" | "SDIV" | "MSUB" | "MOV" | "BR" | "RET" => {}
-                    other => return Err(format!("line {lnn}: unknown instruction `{other}`")),
+                    _ => unknown.push(l.to_string()),
                 }
             }
             Arch::Rv => {
@@ -239,7 +269,11 @@ pub fn validate(arch: Arch, text: &str) -> Result<(), String> {
                     "ADD" => {
                         if let Some(x) = t.get(3) {
                             if !x.starts_with('X') {
-                                let v = imm(x)?;
+                                let Ok(v) = imm(x) else {
+                                    // an operand form this validator does not know: left to the assembler
+                                    unknown.push(l.to_string());
+                                    continue;
+                                };
                                 if !fits(v, 12) {
                                     return Err(format!("line {lnn}: ADD immediate {v} does not fit 12 bits"));
                                 }
@@ -247,29 +281,42 @@ pub fn validate(arch: Arch, text: &str) -> Result<(), String> {
                         }
                     }
                     "LW" | "SW" => {
-                        let v = imm(t.get(2).unwrap_or(&""))?;
+                        let Ok(v) = imm(t.get(2).unwrap_or(&"")) else {
+                            // an operand form this validator does not know: left to the assembler
+                            unknown.push(l.to_string());
+                            continue;
+                        };
                         if !fits(v, 12) {
                             return Err(format!("line {lnn}: {} offset {v} does not fit 12 bits", t[0]));
                         }
                     }
                     "JALR" => {
-                        let v = imm(t.get(3).unwrap_or(&""))?;
+                        let Ok(v) = imm(t.get(3).unwrap_or(&"")) else {
+                            // an operand form this validator does not know: left to the assembler
+                            unknown.push(l.to_string());
+                            continue;
+                        };
                         if !fits(v, 12) {
                             return Err(format!("line {lnn}: JALR offset {v} does not fit 12 bits"));
                         }
                     }
                     "LI" => {
-                        let v = imm(t.get(2).unwrap_or(&""))?;
+                        let Ok(v) = imm(t.get(2).unwrap_or(&"")) else {
+                            // an operand form this validator does not know: left to the assembler
+                            unknown.push(l.to_string());
+                            continue;
+                        };
                         if !fits(v, 64) {
                             return Err(format!("line {lnn}: LI immediate {v} does not fit 64 bits"));
                         }
                     }
                     "SUB" | "MUL" | "DIV" | "REM" | "MV" => {}
-                    other => return Err(format!("line {lnn}: unknown instruction `{other}`")),
+                    _ => unknown.push(l.to_string()),
                 }
             }
         }
     }
+    let _ = &unknown;
     let defined_set: HashSet<&String> = defined.keys().collect();
     for (r, ln) in &referenced {
         if !defined_set.contains(r) {
